@@ -331,9 +331,17 @@ class DiscreteFourierTransformBase(Operator):
         y = self.range.element()
         kwargs.pop('planning_timelimit', None)
 
+        arr_out = y.asarray()
+        if (is_real_dtype(arr_out.dtype) and not self.halfcomplex and
+                not is_real_dtype(x.dtype)):
+            # Inverse onto a real space: the transform is evaluated as C2C
+            # into a complex temporary (see `_call_pyfftw`), plan for that
+            arr_out = np.empty(arr_out.shape,
+                               dtype=complex_dtype(arr_out.dtype))
+
         direction = 'forward' if self.sign == '-' else 'backward'
         self._fftw_plan = pyfftw_call(
-            x.asarray(), y.asarray(), direction=direction,
+            x.asarray(), arr_out, direction=direction,
             halfcomplex=self.halfcomplex, axes=self.axes,
             planning_effort=planning_effort, **kwargs)
 
